@@ -114,3 +114,36 @@ func VerifC01_Hello() {
 	}
 	c01framed(h, Type_Hello)
 }
+
+// builder histories in which a child grows after it was added (see C06 LateGrowth harnesses)
+func VerifC01_LateGrowth() {
+	a, grow := c06lateChild()
+	switch vr.Choice("container", 3) {
+	case 0:
+		vr.Tag("container", "PacketOut")
+		p := NewPacketOut()
+		p.AddAction(a)
+		grow()
+		c01framed(p, Type_PacketOut)
+	case 1:
+		vr.Tag("container", "FlowMod")
+		ia := NewInstrApplyActions()
+		ia.AddAction(a, false)
+		grow()
+		f := NewFlowMod()
+		f.AddInstruction(ia)
+		c01framed(f, Type_FlowMod)
+	default:
+		vr.Tag("container", "GroupMod")
+		bk := NewBucket()
+		bk.AddAction(a)
+		grow()
+		g := NewGroupMod()
+		g.AddBucket(*bk)
+		if vr.Bool("grow-after-addbucket") {
+			grow()
+		}
+		g.AddBucket(Bucket{Weight: vr.U16("weight"), Actions: []Action{NewActionOutput(vr.U32("port"))}})
+		c01framed(g, Type_GroupMod)
+	}
+}
